@@ -44,6 +44,11 @@ impl<'a> PruneRemotes<'a> {
         self.next_id.is_none()
     }
 
+    /// Whether a (later) timeout is still queued for this remote.
+    pub fn is_queued(&self, id: &Uuid) -> bool {
+        self.next_id.as_ref() == Some(id) || self.remote_ids.iter().any(|(i, _)| i == id)
+    }
+
     pub fn push(&mut self, id: Uuid, timeout: Duration) {
         let PruneRemotes {
             next_id,
